@@ -53,7 +53,7 @@ CHECKS = {
 }
 
 # properties whose proof modules are merged into lean/ and whose check passes on the clean tree
-READY = ["C01", "C02", "C03", "C04", "C06", "C07", "C08", "C09", "C10", "C11", "C12", "C13", "C14", "C15", "C16", "C17", "C18", "C19", "C20"]
+READY = ["C01", "C02", "C03", "C04", "C05", "C06", "C07", "C08", "C09", "C10", "C11", "C12", "C13", "C14", "C15", "C16", "C17", "C18", "C19", "C20"]
 
 CHECKS.update({
     "C04": dict(
@@ -68,6 +68,22 @@ CHECKS.update({
              "(C03 gives the rotation). Binary-level /BunchLength,/EnergySpread series are measured in the thorough tier.",
         technique="Lean 4 proof (moment calculus by ring/field_simp on the translated stencil, induction over steps, real analysis for the limit) + translator + bitwise iteration correspondence",
         ref="DESIGN.md 7/C04"),
+    "C05": dict(
+        text="PARTIAL. Theorems: (A) on the GENERATED main loop with uninterpreted physics: one iteration maps the grid by wake "
+             "kick (with the wake potential of the grid's current profile), RF kick, drift, Fokker-Planck, in this order; the "
+             "profile is re-projected after every iteration; the wake potential written with a record is the one applied by the "
+             "following kick. (B) exact moment balance of a stationary state of the one-step moment map (any field, any damping "
+             "decrement): mean energy 0 and tan(dtheta)<q> = <W>. (C) continuous statement with the code's sign conventions "
+             "(dq/dtheta=-p, dp/dtheta=q-W/dtheta): rho(q)exp(-p^2/2) is stationary for the Vlasov-Fokker-Planck equation iff "
+             "rho'=-(q-F)rho, and then ln rho + q^2/2 - int F is constant (the relation of the property), the energy factor "
+             "being the unit Gaussian. Oracle on the real program: runs of 13 damping times with resistive, resistive-wall "
+             "and parallel-plates impedances, potential-well terms 0.05..1.5: stationarity, energy spread = natural spread of "
+             "the discrete operator (C04), Haissinski residual over the core, exact first-moment balance.",
+        note="Convergence of the discrete iteration to a stationary state and the size of the discretisation error of that state "
+             "are measured, not proved. Configurations beyond the stability limit of the explicit Fokker-Planck step "
+             "(e1/delta^2 > 0.3) or above the instability threshold are not judged.",
+        technique="Lean 4 proof (refinement on the translated main loop, field algebra, Mathlib calculus for the continuous equation) + translator + binary-level oracle on long runs",
+        ref="DESIGN.md 7/C05"),
     "C06": dict(
         text="Theorems for all transform lengths, bunch counts, bucket layouts, complex impedances and profiles (any "
              "field, naive-sum transforms): the state machine computes scale*c2r(Z|k<N/2 * r2c(pad(profiles))) read "
